@@ -2247,6 +2247,28 @@ def N6(ctx, rule="N6"):
         ctx.ok(rule, "no-ambient-state", "-", "no RNG, clock, thread, environment, hash-seeded container or address-derived value in %d bodies / %d calls of the crate" % (len(bodies), n_calls))
 
 
+def projection_signature(ctx, chain):
+    """what the `map` steps of an iterator chain turn an element into, as position-sensitive text (closure-relative)"""
+    sig = []
+    for c in chain:
+        if c[0] == "std::iter::Iterator::map" and len(c[2][2]) > 1:
+            fcl = closure_of_arg(ctx, c[1], c[2][2][1])
+            re_ = return_expr(fcl) if fcl is not None else None
+            sig.append(fmt_expr(re_, None) if re_ is not None else "?%s" % (fcl.id if fcl is not None else "closure"))
+    return sig
+
+
+def iter_eq_same_projection(ctx, rule, b, bb, t, what):
+    """`a.eq(b)` over two mapped iterators: both sides project their elements the same way, position by position"""
+    sg = [projection_signature(ctx, iterator_chain(ctx, b, expr_operand(b, a))) for a in t["args"][:2]]
+    ok = sg[0] == sg[1] and not any(x.startswith("?") for x in sg[0])
+    nth = sum(1 for bb2, t2 in b.calls() if bb2 < bb and callee_path(t2) == "std::iter::Iterator::eq")
+    ctx.check(ok, rule, "same-projection|%s|%d" % (short(b.id), nth), ctx.model.where(b, bb),
+              "both operands of this elementwise comparison project their elements identically (%s)" % ("; ".join(sg[0])[:120] or "no map"),
+              "%s compares differently projected elements: `%s` on one side, `%s` on the other - equal values compare unequal, or "
+              "differing ones equal" % (what, "; ".join(sg[0])[:100], "; ".join(sg[1])[:100]))
+
+
 def D4(ctx, rule="D4"):
     """PartialEq for FnGraph compares node count, source, target, weight and each function"""
     fb, m, fl = ctx.fb, ctx.model, ctx.model.flow
@@ -2346,6 +2368,7 @@ def D4(ctx, rule="D4"):
                 sel = [n_ for n_ in names if n_ in SELECTIVE_ITER]
                 sides.append((at, sel, [n_ for n_ in names if not n_.startswith("inline:")]))
             iter_eqs.append((b, bb, t, sides))
+            iter_eq_same_projection(ctx, rule, b, bb, t, "FnGraph ==")
     for (b, bb, t, sides) in iter_eqs:
         if sides[0][0] == sides[1][0] and sides[0][2] == sides[1][2]:
             attrs |= sides[0][0]
